@@ -30,6 +30,10 @@ class BasicZoneProcessorTest_createAbbreviation;
 class BasicZoneProcessorTest_calcStartDayOfMonth;
 class BasicZoneProcessorTest_calcRuleOffsetMinutes;
 
+#if ACE_TIME_VERIF_HOOKS
+extern "C" { extern unsigned long ace_time_verif_basic_dropped; }
+#endif
+
 namespace ace_time {
 
 template<uint8_t SIZE, uint8_t TYPE, typename ZS, typename ZI, typename ZIB>
@@ -754,6 +758,11 @@ class BasicZoneProcessor: public ZoneProcessor {
       // history. But it seems like too much work right now to try to dig that
       // out, just to implement the explicit check for kMaxCacheEntries. It
       // would mean maintaining another version of zone_specifier.py.
+#if ACE_TIME_VERIF_HOOKS
+      // Verification hook (off unless ACE_TIME_VERIF_HOOKS is defined): count
+      // the transitions that the guard below is about to drop.
+      if (mNumTransitions >= kMaxCacheEntries) ace_time_verif_basic_dropped++;
+#endif
       if (mNumTransitions >= kMaxCacheEntries) return;
 
       // insert new element at the end of the list
